@@ -2,7 +2,7 @@
 import re
 
 import anchors
-from core import (BA, call_matches, callee_paths, op_local, op_place, op_const, const_int, const_str, place_fields, str_consts)
+from core import (BA, call_matches, callee_paths, op_local, op_place, op_const, const_int, const_str, place_fields, str_consts, closure_sites)
 from rules import common, sqlc, txn
 from rules.C04 import is_mutator_call
 from rules.C06 import backward_direct
@@ -152,6 +152,30 @@ def run(ctx):
     q = [s for (_, _, s, _) in str_consts(fl)]
     ok = any("from files order by name" in sqlc.norm(s) for s in q)
     ctx.ob("R17.4", "Files::list|one-ordered-query", ok, where=fl.span, detail="Files::list selects from Files ordered by name")
+
+    # ---- R17.8 (F-X): the file-role classifier and the builder agree on what "modified by somebody else" means
+    ctx.rule("R17.8", "File::is_source decides 'still as redo left it' with the builder's own override test (Stamp::detect_override on the recorded stamp and a fresh read_stamp) - sibling agreement: a stamp difference that the builder does not call an override (mode, owner, inode) and rebuilds through must not turn the target into a source for redo-ood / redo-targets")
+    IS = prog.one(r"state::File::is_source")
+    fam = [IS] + [b for b in prog.bodies.values() if b.key.startswith(IS.key + "::{closure")]
+    sites = [(b, i) for b in fam for i in BA.of(b).calls(r"state::Stamp::detect_override")]
+    reads = BA.of(IS).calls(r"state::File::read_stamp")
+    ok = bool(sites) and bool(reads)
+    if ok:
+        # one operand is the recorded stamp (File.stamp, possibly handed to a closure by Option::map_or), the other the fresh one
+        from core import taint as _taint
+        fresh = _taint(IS, src_call=lambda t_: call_matches(t_, r"state::File::read_stamp"), mode="derived")
+        ok = False
+        for (b, i) in sites:
+            t = b.blocks[i]["term"]
+            if b.key == IS.key:
+                ok = ok or any(op_local(a) in fresh or any(x in fresh for x in BA.of(b).ref_chain(op_local(a))) for a in t["args"] if op_local(a) is not None)
+            else:
+                # inside a closure of is_source: the fresh stamp arrives as a capture of a local that is `fresh` in the parent
+                for (pbb, si, dl, dk, ops) in closure_sites(IS, b.key):
+                    ok = ok or any(op_local(o) in fresh or any(x in fresh for x in BA.of(IS).ref_chain(op_local(o))) for o in ops if op_local(o) is not None)
+    ctx.ob("R17.8", "File::is_source|same-override-test-as-the-builder", ok, where=IS.span,
+           detail="is_source compares the recorded stamp with a fresh read_stamp through Stamp::detect_override" if ok else
+           "is_source does not use Stamp::detect_override on a fresh stamp: a generated target whose stamp changed only in mode/owner/inode (chmod) is rebuilt by the next redo-ifchange but listed by redo-sources and missing from redo-ood / redo-targets")
 
 
 def _ifchange_deciders(prog):
